@@ -1,5 +1,202 @@
-"""standard specification functions of the contract language (beyond the special forms old/implies/...)"""
+"""standard specification functions of the contract language (beyond the special forms old/implies/...)
+
+Element interface vocabulary (DESIGN 2.3): the denotations of a user element are uninterpreted functions
+  el_call : Obj V -> V            el_run : Obj Lst_V -> Lst_V
+  el_fill : Obj St V -> St        el_compute / el_request : Obj St -> Lst_V
+Recursive specification functions are emitted as `define-fun-rec` (z3 and cvc5 unfold them on demand)."""
+from .smt import T, TRUE, FALSE, I, AND, OR, NOT, EQ, CMP, ITE, ADD, SUB
+from .sym import Num, Bool, Opaque, Ref, View, Tup, Str, LstCell, IterCell, NoneV
+
+
+def U(msg):
+    from .interp import Unsupported
+    return Unsupported(msg)
+
+
+def lst_term(ip, st, v, sort=None):
+    """Lst term of a list-like value (term identity is kept where the value carries one)"""
+    if isinstance(v, Ref) and isinstance(st.heap[v.cid], LstCell):
+        return ip.deref(st, v)
+    if isinstance(v, View) and getattr(v, "term", None) is not None:
+        return v.term
+    if isinstance(v, Ref) and isinstance(st.heap[v.cid], IterCell):
+        from .calls import flow_remaining_term
+        return flow_remaining_term(ip, st, v)
+    from .calls import materialise
+    view = ip.as_view(st, v)
+    if sort is None:
+        from .builtins_ import sv_lst_sort
+        sort = sv_lst_sort(ip, view.get(I(0)))
+    return materialise(ip, st, view, sort)
+
+
+def obj_term(v):
+    if isinstance(v, Opaque) and v.sort == "Obj":
+        return v.t
+    raise U("element expected, got %r" % (v,))
+
+
+def v_term(ip, v):
+    v = ip.to_yield_value(None, v)
+    if isinstance(v, Opaque) and v.sort == "V":
+        return v.t
+    raise U("flow value expected, got %r" % (v,))
+
+
+def st_term(v):
+    if isinstance(v, Opaque) and v.sort == "St":
+        return v.t
+    raise U("element state expected, got %r" % (v,))
+
+
+def sp_el_call(ip, st, pos, kws):
+    f = ip.reg.ufun("el_call", ["Obj", "V"], "V")
+    return Opaque(T("(%s %s %s)" % (f, obj_term(pos[0]).s, v_term(ip, pos[1]).s), "V"))
+
+
+def sp_el_run(ip, st, pos, kws):
+    reg = ip.reg
+    sort = reg.lst("V")
+    f = reg.ufun("el_run", ["Obj", sort], sort)
+    t = T("(%s %s %s)" % (f, obj_term(pos[0]).s, lst_term(ip, st, pos[1], sort).s), sort)
+    return ip.lst_view(t)
+
+
+def sp_el_source(ip, st, pos, kws):
+    reg = ip.reg
+    sort = reg.lst("V")
+    f = reg.ufun("el_source", ["Obj"], sort)
+    return ip.lst_view(T("(%s %s)" % (f, obj_term(pos[0]).s), sort))
+
+
+def sp_elstate(ip, st, pos, kws):
+    from .calls import elem_state
+    return Opaque(elem_state(ip, st, pos[0]))
+
+
+def sp_el_fill(ip, st, pos, kws):
+    f = ip.reg.ufun("el_fill", ["Obj", "St", "V"], "St")
+    return Opaque(T("(%s %s %s %s)" % (f, obj_term(pos[0]).s, st_term(pos[1]).s, v_term(ip, pos[2]).s), "St"))
+
+
+def sp_el_compute(ip, st, pos, kws):
+    reg = ip.reg
+    f = reg.ufun("el_compute", ["Obj", "St"], reg.lst("V"))
+    return ip.lst_view(T("(%s %s %s)" % (f, obj_term(pos[0]).s, st_term(pos[1]).s), reg.lst("V")))
+
+
+def sp_el_request(ip, st, pos, kws):
+    reg = ip.reg
+    f = reg.ufun("el_request", ["Obj", "St"], reg.lst("V"))
+    return ip.lst_view(T("(%s %s %s)" % (f, obj_term(pos[0]).s, st_term(pos[1]).s), reg.lst("V")))
+
+
+def sp_el_request_state(ip, st, pos, kws):
+    g = ip.reg.ufun("el_request_state", ["Obj", "St"], "St")
+    return Opaque(T("(%s %s %s)" % (g, obj_term(pos[0]).s, st_term(pos[1]).s), "St"))
+
+
+def sp_el_reset(ip, st, pos, kws):
+    g = ip.reg.ufun("el_reset", ["Obj"], "St")
+    return Opaque(T("(%s %s)" % (g, obj_term(pos[0]).s), "St"))
+
+
+def sp_fold_fill(ip, st, pos, kws):
+    """fold_fill(el, s, xs, n): state of el after filling xs[0..n) starting from s (left fold of el_fill)"""
+    reg = ip.reg
+    sort = reg.lst("V")
+    reg.ufun("el_fill", ["Obj", "St", "V"], "St")
+    reg.fun_decl("fold_fill",
+                 "(define-fun-rec fold_fill ((e Obj) (s St) (xs %s) (n Int)) St "
+                 "(ite (<= n 0) s (el_fill e (fold_fill e s xs (- n 1)) (select (arr_%s xs) (- n 1)))))" % (sort, sort))
+    xs = lst_term(ip, st, pos[2], sort)
+    return Opaque(T("(fold_fill %s %s %s %s)" % (obj_term(pos[0]).s, st_term(pos[1]).s, xs.s, ip.num(pos[3]).s), "St"))
+
+
+def sp_seq_run(ip, st, pos, kws):
+    """seq_run(els, xs, n): content after passing xs through run of els[0..n) from left to right"""
+    reg = ip.reg
+    sort = reg.lst("V")
+    osort = reg.lst("Obj")
+    reg.ufun("el_run", ["Obj", sort], sort)
+    reg.fun_decl("seq_run",
+                 "(define-fun-rec seq_run ((es %s) (xs %s) (n Int)) %s "
+                 "(ite (<= n 0) xs (el_run (select (arr_%s es) (- n 1)) (seq_run es xs (- n 1)))))" % (osort, sort, sort, osort))
+    es = lst_term(ip, st, pos[0], osort)
+    xs = lst_term(ip, st, pos[1], sort)
+    return ip.lst_view(T("(seq_run %s %s %s)" % (es.s, xs.s, ip.num(pos[2]).s), sort))
+
+
+def sp_same(ip, st, pos, kws):
+    """same(a, b): the two sequences are the same list term (stronger than ==; what uninterpreted denotations need)"""
+    a, b = pos
+    if isinstance(a, Opaque) and isinstance(b, Opaque):
+        return Bool(EQ(a.t, b.t))
+    ta = lst_term(ip, st, a)
+    tb = lst_term(ip, st, b, ta.sort)
+    return Bool(EQ(ta, tb))
+
+
+def sp_has_run(ip, st, pos, kws):
+    from .builtins_ import has_attr, is_callable
+    from .sym import Fun
+    v = pos[0]
+    return Bool(AND(has_attr(ip, st, v, "run"), is_callable(ip, st, Fun("elem-method", elem=v, name="run"))))
+
+
+def _key(ip, v):
+    if isinstance(v, Str):
+        return ip.reg.key(v.s)
+    if isinstance(v, Opaque) and v.sort == "Key":
+        return v.t
+    raise U("attribute name expected, got %r" % (v,))
+
+
+def sp_method(ip, st, pos, kws):
+    """method(el, name): the bound method `el.<name>` of an abstract element"""
+    from .sym import Fun
+    name = pos[1].s if isinstance(pos[1], Str) else None
+    return Fun("elem-method", elem=pos[0], name=name, key=_key(ip, pos[1]))
+
+
+def sp_callable_m(ip, st, pos, kws):
+    """callable_m(el, name): el has an attribute <name> and it is callable"""
+    ip.reg.need_val()
+    f = ip.reg.ufun("callable_attr", ["Obj", "Key"], "Bool")
+    return Bool(T("(%s %s %s)" % (f, obj_term(pos[0]).s, _key(ip, pos[1]).s), "Bool"))
+
+
+def sp_has_attr(ip, st, pos, kws):
+    from .builtins_ import has_attr
+    return Bool(has_attr(ip, st, pos[0], pos[1].s))
+
+
+def sp_class_method(ip, st, pos, kws):
+    """class_method(obj, name): the method <name> as defined by the class of obj (not an instance attribute)"""
+    from .sym import Fun, ObjCell
+    v = pos[0]
+    if not (isinstance(v, Ref) and isinstance(st.heap[v.cid], ObjCell)):
+        raise U("class_method of %r" % (v,))
+    k = ip.contracts.find_method(st.heap[v.cid].cls, pos[1].s)
+    if k is None:
+        raise U("class_method: no contract for %s.%s" % (st.heap[v.cid].cls, pos[1].s))
+    return Fun("bound", contract=k, self_ref=v, name=pos[1].s)
+
+
+def sp_is_instance_of(ip, st, pos, kws):
+    """is_instance_of(v, 'ClassName'): isinstance test against a repository class (abstract predicate for elements)"""
+    from .builtins_ import isinstance_
+    from .sym import Fun
+    return Bool(isinstance_(ip, st, pos[0], Fun("class", name=pos[1].s, mod=None)))
 
 
 def register(ix):
-    pass
+    for name, fn in [("class_method", sp_class_method), ("is_instance_of", sp_is_instance_of)]:
+        ix.spec_names[name] = fn
+    for name, fn in [("method", sp_method), ("callable_m", sp_callable_m), ("has_attr", sp_has_attr)]:
+        ix.spec_names[name] = fn
+    for name, fn in [("el_call", sp_el_call), ("el_run", sp_el_run), ("el_source", sp_el_source), ("elstate", sp_elstate),
+                     ("el_fill", sp_el_fill), ("el_compute", sp_el_compute), ("el_request", sp_el_request),
+                     ("el_request_state", sp_el_request_state), ("el_reset", sp_el_reset),
+                     ("fold_fill", sp_fold_fill), ("seq_run", sp_seq_run), ("same", sp_same), ("has_run", sp_has_run)]:
+        ix.spec_names[name] = fn
